@@ -1053,6 +1053,23 @@ def rule_R42_vec_extend_option(text, log):
         pos = rs + 1
 
 
+def rule_R43_drop(text, log):
+    """`drop(X)` -> `vx_drop(X)` (prelude function with an empty body that takes its argument by value: what `core::mem::drop`
+    is; the destructor that runs is under contract where a `Drop` impl is - U12 -, otherwise it has no effect on the model)"""
+    out = text
+    rx = re.compile(r'(?<![\w.:])drop\s*\(')
+    pos = 0
+    while True:
+        mask = code_mask(out)
+        mm = next((m for m in rx.finditer(out) if m.start() >= pos and mask[m.start()] and not re.search(r'\bfn\s+$', out[:m.start()])), None)
+        if not mm:
+            return out
+        new = 'vx_drop('
+        log.append(('R43', norm_ws(out[mm.start():mm.end() + 20])[:60], 'vx_drop(..)'))
+        out = out[:mm.start()] + new + out[mm.end():]
+        pos = mm.start() + len(new)
+
+
 def rule_R32_or_else(text, log):
     """`OPT.or_else(|| B)` -> `(match OPT { Some(vx_v) => Some(vx_v), None => B })` (definition of Option::or_else)"""
     out = text
@@ -1677,7 +1694,7 @@ class Unit(object):
         self.lost_aids = []
         self.gone_fns = []
         self.late_hints = False
-        self.rules = set(['R1', 'R2', 'ATTR', 'R4', 'R5', 'R6', 'R10', 'R11', 'R14', 'R15', 'R17', 'R22', 'R23', 'R25', 'R26', 'R27', 'R28', 'R29', 'R30', 'R33', 'R35', 'R36', 'R38', 'R39', 'R40', 'R41', 'R42'])
+        self.rules = set(['R1', 'R2', 'ATTR', 'R4', 'R5', 'R6', 'R10', 'R11', 'R14', 'R15', 'R17', 'R22', 'R23', 'R25', 'R26', 'R27', 'R28', 'R29', 'R30', 'R33', 'R35', 'R36', 'R38', 'R39', 'R40', 'R41', 'R42', 'R43'])
         self.unit_props = []
         self.lemmas = []
         self.tmpl_fns = []          # hand-written exec/proof fns in template (name, props)
@@ -1765,6 +1782,8 @@ class Unit(object):
                 text = rule_R36_range_for_each(text, log)
             if 'R40' in self.rules:
                 text = rule_R40_debug_assert_eq(text, log)
+            if 'R43' in self.rules:
+                text = rule_R43_drop(text, log)
             if 'R42' in self.rules:
                 text = rule_R42_vec_extend_option(text, log)
             if 'R41' in self.rules:
